@@ -331,7 +331,7 @@ func deliver(nd *labnet.Node, b *types.Block) (bool, error) {
 // runCase: h = [mode, pos, mutant]; mode 0: mutant extends the best chain; mode 1: mutant on a side branch
 // (valid chain already at pos+0, side branch = mutant + 2 children, longer than the main chain at that time).
 // pairVariants: an invalid block that is only invalid TOGETHER with its parent (both attached by one reorganisation).
-var pairVariants = []string{"child-respends-output-spent-by-parent", "child-respends-output-created-and-spent-in-parent", "child-spends-output-of-other-branch", "child-spends-output-created-and-spent-in-two-detached-blocks"}
+var pairVariants = []string{"child-respends-output-spent-by-parent", "child-respends-output-created-and-spent-in-parent", "child-spends-output-of-other-branch", "child-spends-output-created-and-spent-in-two-detached-blocks", "side-branch-spends-coinbase-immature-after-its-mature-spend-was-detached", "side-branch-vetoes-locked-vote-after-its-legal-veto-was-detached"}
 
 // runPair: mode 2 = the pair sits on a side branch that outgrows the main chain (fork switch);
 // mode 3 = the child is delivered first (orphan), then the parent extends the best chain (both connect in one call).
@@ -376,6 +376,12 @@ func runPair(h []int) (out xplore.Out) {
 		m2 := net.NewBlock(m1, labnet.BlockOpt{Tag: 12, Txs: []*types.Tx{t2}})
 		detached = []*labnet.B{m1, m2}
 		s2txs = []*types.Tx{t2}
+	}
+	// variants 4/5: the main chain spends a coinbase reward / vetoes a vote legally; a side branch that forks below
+	// does the same at a height where the output is still immature / locked. The reorganisation detaches the legal
+	// spender first: whatever the detach restores must keep the maturity constraint
+	if vi == 4 || vi == 5 {
+		return runMaturity(h)
 	}
 	s1 := net.NewBlock(valid[pos-1], labnet.BlockOpt{Tag: 11, Txs: s1txs})
 	s2 := net.NewBlock(s1, labnet.BlockOpt{Tag: 11, Txs: s2txs})
@@ -521,6 +527,88 @@ func runLink(h []int) (out xplore.Out) {
 	} else {
 		out.Outcome = "copy-with-bad-link-taken"
 	}
+	in.DB.Wipe()
+	return
+}
+
+func runMaturity(h []int) (out xplore.Out) {
+	mode, pos, vi := h[0], h[1], h[2]
+	name := pairVariants[vi]
+	if mode != 2 || pos != 1 {
+		out.Digest, out.Outcome = "n/a", "not-applicable"
+		return
+	}
+	viol := func(key, what string) {
+		out.Viols = append(out.Viols, xplore.Viol{Key: key, What: fmt.Sprintf("%s: %s", name, what)})
+	}
+	var mainExtra []*labnet.B // legal spender on top of the valid prefix
+	var fork, upTo int       // side branch forks at valid[fork]; valid[1..upTo] are delivered first
+	var early *types.Tx
+	if vi == 4 {
+		// reward of block 9 matures at height 19 (position 3)
+		fork, upTo = 1, 2
+		mainExtra = []*labnet.B{net.NewBlock(valid[2], labnet.BlockOpt{Tag: 12, Txs: []*types.Tx{labnet.Pay([]labnet.Out{P.Reward[9]}, labnet.Prog(0x79))}})}
+		early = labnet.Pay([]labnet.Out{P.Reward[9]}, labnet.Prog(0x7a))
+	} else {
+		// vote created at height 18 (position 2), vetoable from height 20 (position 4, where the valid chain vetoes it)
+		fork, upTo = 2, 4
+		early = labnet.Pay([]labnet.Out{{Tx: vtx["vote"], Idx: 0}}, labnet.Prog(0x7b))
+	}
+	s1 := net.NewBlock(valid[fork], labnet.BlockOpt{Tag: 11, Txs: []*types.Tx{early}})
+	side := []*labnet.B{s1}
+	for i := 0; i < 3; i++ {
+		side = append(side, net.NewBlock(side[len(side)-1], labnet.BlockOpt{Tag: 11}))
+	}
+	bad := map[bc.Hash]string{}
+	for i, b := range side {
+		bad[b.Hash()] = fmt.Sprintf("side-%d", i+1)
+	}
+	w := chainlab.NewWorld(net, P.Tip, P.Base)
+	in, err := w.NewInst()
+	if err != nil {
+		return xplore.Out{Viols: []xplore.Viol{{Key: "infra-newnode", What: err.Error()}}}
+	}
+	nd := in.Node
+	check := func(when string) {
+		out.Checks++
+		best := nd.Chain.BestBlockHeader()
+		if n, isBad := bad[best.Hash()]; isBad {
+			viol("invalid-block-became-best:pair-"+name, fmt.Sprintf("%s: best block is %s", when, n))
+		}
+		for hsh, n := range bad {
+			if nd.Chain.InMainChain(hsh) {
+				viol("invalid-block-in-main-chain:pair-"+name, fmt.Sprintf("%s: %s reported in main chain", when, n))
+			}
+		}
+	}
+	for i := 1; i <= upTo; i++ {
+		if orphan, err := deliver(nd, valid[i].Block); err != nil || orphan {
+			viol("valid-block-refused", fmt.Sprintf("l%d: orphan=%v err=%v", i, orphan, err))
+			return
+		}
+	}
+	for i, m := range mainExtra {
+		if orphan, err := deliver(nd, m.Block); err != nil || orphan {
+			viol("valid-block-refused", fmt.Sprintf("legal spender %d: orphan=%v err=%v", i+1, orphan, err))
+			return
+		}
+	}
+	for i, b := range side {
+		deliver(nd, b.Block)
+		check(fmt.Sprintf("after side block %d", i+1))
+	}
+	for i := upTo + 1; i <= last; i++ {
+		deliver(nd, valid[i].Block)
+		check(fmt.Sprintf("after l%d", i))
+	}
+	best := nd.Chain.BestBlockHeader()
+	out.Checks++
+	if best.Hash() != valid[last].Hash() {
+		viol("best-chain-differs-from-run-without-mutant:pair", fmt.Sprintf("best height %d, expected the valid tip at height %d", best.Height, valid[last].Height))
+	}
+	out.Steps = upTo + len(mainExtra) + len(side) + last - upTo
+	out.Digest = fmt.Sprintf("%v", h)
+	out.Outcome = "pair-" + name
 	in.DB.Wipe()
 	return
 }
